@@ -157,43 +157,7 @@ def primitives(P):
 
 
 # ------------------------------------------------------------------------------------------------ yearly rules: evaluation
-class _DayDate:
-    """year-month-day record of a date known only by its day number (result of plus_days under the C09 contract)"""
-
-    def __init__(self, days, ordinal):
-        self.days, self._calendar_ordinal = days, ordinal
-
-    def _to_year_month_day(self):
-        return self
-
-
-_plus_days_contract = []
-
-
-def install_plus_days_contract():
-    """LocalDate.plus_days on ISO dates by contract (C09: the result is the date whose day number is the operand's + n, OverflowError
-    outside the calendar's range); the result carries its day number only.  Assigned on the classes: in force in symbolic runs and
-    concrete replays alike."""
-    if _plus_days_contract:
-        return
-    _plus_days_contract.append(1)
-    from pyoda_time import LocalDate
-    from pyoda_time.calendars._gregorian_year_month_day_calculator import _GregorianYearMonthDayCalculator as G
-    from pyoda_time.fields._fixed_length_date_period_field import _FixedLengthDatePeriodField as F
-    real_dse = G._get_days_since_epoch
-
-    def dse(self, ymd):
-        return ymd.days if hasattr(ymd, "days") else real_dse(self, ymd)
-
-    def add(self, local_date, value):
-        cal = local_date.calendar
-        new = local_date._days_since_epoch + value * self._FixedLengthDatePeriodField__unit_days
-        if not (cal._min_days <= new <= cal._max_days):
-            raise OverflowError("date computation leaves the calendar range")
-        return LocalDate._ctor(year_month_day_calendar=_DayDate(new, cal._ordinal))
-    G._get_days_since_epoch = dse
-    F.add = add
-    stubs.STUBS_IN_FORCE.append("contract:_FixedLengthDatePeriodField.add = day number + n (C09.plusdays on the real calendars); the result is known by its day number")
+from props.daycal import install_iso_plus_days_contract as install_plus_days_contract  # noqa: E402
 
 
 YEAR_PARTS = {"early": (1, 1899), "table": (1900, 2100), "late": (2101, 9998)}        # around the ISO calculator's 1900-2100 month-start table
